@@ -282,3 +282,21 @@ func DrawBits(t *rapid.T, n int, label string) []bool {
 	}
 	return res
 }
+
+// FromCircuit converts a library circuit (e.g. compiler output) into the plain
+// description so that the reference evaluator can run it.  Only the gate list,
+// the argument widths and the output widths are read.
+func FromCircuit(c *circuit.Circuit) Circ {
+	var res Circ
+	for _, in := range c.Inputs {
+		res.In = append(res.In, int(in.Type.Bits))
+	}
+	for _, out := range c.Outputs {
+		res.Out = append(res.Out, int(out.Type.Bits))
+	}
+	res.Gates = make([]ref.Gate, len(c.Gates))
+	for i, g := range c.Gates {
+		res.Gates[i] = ref.Gate{int(g.Op), int(g.Input0), int(g.Input1), int(g.Output)}
+	}
+	return res
+}
